@@ -116,7 +116,16 @@ func read(repo repository.Repo, ref string) (*Identity, error) {
 
 	i := &Identity{}
 
-	for _, hash := range hashes {
+	for j, hash := range hashes {
+		// an identity is a linear chain of versions: one root, no merge
+		commit, err := repo.ReadCommit(hash)
+		if err != nil {
+			return nil, errors.Wrap(err, "can't read git commit")
+		}
+		if len(commit.Parents) > 1 || (j > 0 && len(commit.Parents) == 0) {
+			return nil, fmt.Errorf("identity history is not linear at %s", hash)
+		}
+
 		entries, err := repo.ReadTree(hash)
 		if err != nil {
 			return nil, errors.Wrap(err, "can't list git tree entries")
